@@ -29,7 +29,9 @@
 (*    statement that an observed outcome breaks.  The invariants say it is empty.       *)
 (*  * Legacy switches on deviations: "unguarded_hash" is what 0.23.0 does (F6);         *)
 (*    "reraise_copies", "private_default", "unguarded_recursion", "report_wraps_user",  *)
-(*    "decor_class_at_call" are plausible wrong designs (spec mutants).                 *)
+(*    "decor_class_at_call", "cache_unvalidated_referent" (a forward reference's        *)
+(*    referent is memoised before it is validated: the first call reports it, later     *)
+(*    calls hand it to issubclass()) are plausible wrong designs (spec mutants).        *)
 (*                                                                                      *)
 (* trace/OutcomesTrace.tla re-uses Obs*, Judge and the forest to judge recorded runs.   *)
 EXTENDS Naturals, Sequences, FiniteSets, TLC, Json, IOUtils
@@ -105,6 +107,7 @@ VarsOf == [
                     "syntax_open_bracket", "syntax_two_names", "empty", "blank", "expr_int", "expr_call",
                     "sub_unresolvable", "sub_bad", "lambda", "dunder", "nonascii", "newline", "fwdref_obj_bad",
                     "fwdref_obj_syntax" },
+  fwdref      |-> { "undefined", "nonclass_alias", "nonhint_int", "defined_later", "valid_class" },
   annotated   |-> { "validator_then_foreign", "foreign_then_validator", "foreign_between", "factory_unsubscripted",
                     "factory_isattr_unsubscripted", "only_foreign_unhashable", "validator_and_unhashable",
                     "nested_mixed", "metahint_bad", "validator_negated_mixed", "isinstance_mixed",
@@ -137,12 +140,17 @@ Unhashable(d) == \/ d[1] = "unhashable"
                  \/ d[1] = "annotated" /\ d[2] \in { "only_foreign_unhashable", "validator_and_unhashable" }
                  \/ d[1] = "recursive" /\ d[2] \in { "list_in_itself", "alias_args_cycle" }
 Bottomless(d) == d[1] \in { "recursive", "deep" }
-Lazy(d)       == \/ d[1] \in { "string", "recursive" }  \* may be detected only when called
+\* "fwdref": a dotted string whose referent is, when first looked up (at call time): undefined; a valid hint
+\* that is not a class (a subscripted alias); a non-hint object; undefined at first and a class from the
+\* second look-up on; a class (control)
+BadReferent(d) == d[1] = "fwdref" /\ d[2] \in { "nonclass_alias", "nonhint_int" }   \* resolves, but is unusable
+Lazy(d)       == \/ d[1] \in { "string", "recursive", "fwdref" }  \* may be detected only when called
                  \/ d \in { << "annotated", "metahint_bad" >>, << "unsupported", "typevar_bad_bound" >>,
                             << "malformed", "userclass_subscript" >> }
 ComboKinds    == { "string", "literal", "annotated" }
 
-Mk(e, d, p, r, n, s) == [ entry |-> e, defect |-> d, pos |-> p, rp |-> r, nth |-> n, slot |-> s ]
+\* rept: how often the same wrapper / the same door query is invoked (1, or 3 times with the same object)
+Mk(e, d, p, r, n, s) == [ entry |-> e, defect |-> d, pos |-> p, rp |-> r, nth |-> n, slot |-> s, rept |-> 1 ]
 Decorating   == { "decorate", "call" }
 OnDefects    == { d \in DefectVars : d[1] \in KindsOn }
 ControlCases == { Mk(e, NoDefect, "root", "none", 1, "param") : e \in Entries }
@@ -157,11 +165,16 @@ ComboCases(D, P) ==
                 THEN { Mk(e, d, p, r, 1, "param") : e \in { "call", "is_bearable", "die_if_unbearable" },
                          d \in { x \in D : x[1] \in ComboKinds }, p \in P \cap { "root", "child" }, r \in CheckRPs }
                 ELSE {}
-CasesOver(D, P) == ControlCases \cup DefectCases(D, P) \cup RaiseCases(P) \cup ComboCases(D, P)
+OnceCases(D, P) == ControlCases \cup DefectCases(D, P) \cup RaiseCases(P) \cup ComboCases(D, P)
+\* memoised failures show on the n-th invocation only: repeat whatever is decided at call time
+Repeatable(k)   == \/ k.defect = NoDefect /\ k.nth = 1
+                   \/ k.defect[1] \in { "string", "fwdref" } /\ k.rp = "none"
+CasesOver(D, P) == LET B == OnceCases(D, P) IN B \cup { [ k EXCEPT !.rept = 3 ] : k \in { b \in B : Repeatable(b) } }
 Cases == TLCEval(CasesOver(OnDefects, Positions))
 
 \* what the product above is meant to be (checked, not used for the enumeration)
 Feasible(c) ==
+  /\ c.rept \in { 1, 3 } /\ (c.rept = 3 => Repeatable(c))
   /\ c.slot = "ret" => c.entry \in Decorating /\ c.rp = "none" /\ c.pos \in { "root", "child" }
   /\ c.rp = "callable" => c.entry = "call" /\ c.defect = NoDefect /\ c.pos = "root"
   /\ c.nth = 2 => c.rp \in CheckRPs /\ c.defect = NoDefect
@@ -173,7 +186,7 @@ ASSUME GrammarSane == /\ \A c \in Cases : Feasible(c)
                       /\ KindsOn \subseteq Kinds
 
 CaseRow(c) == [ entry |-> c.entry, defect |-> c.defect[1], var |-> c.defect[2], pos |-> c.pos,
-                rp |-> c.rp, nth |-> c.nth, slot |-> c.slot ]
+                rp |-> c.rp, nth |-> c.nth, slot |-> c.slot, rept |-> c.rept ]
 
 -----------------------------------------------------------------------------
 (* Outcomes: one uniform record shape.                                                  *)
@@ -224,8 +237,8 @@ ObsReturn(o, outc)    == [ o EXCEPT !.out = outc, !.phase = "idle",
 (* every enumerated case is explored separately.  The case table is always complete.    *)
 AbsCase(k) == [ entry |-> k.entry, rp |-> k.rp, nth |-> k.nth, defective |-> k.defect # NoDefect,
                 unhashable |-> Unhashable(k.defect), bottomless |-> Bottomless(k.defect),
-                lazy |-> Lazy(k.defect) ]
-Sig(d)     == << Unhashable(d), Bottomless(d), Lazy(d), d[1] \in ComboKinds >>
+                lazy |-> Lazy(k.defect), badref |-> BadReferent(k.defect) ]
+Sig(d)     == << Unhashable(d), Bottomless(d), Lazy(d), BadReferent(d), d[1] \in ComboKinds >>
 RepDefects == { CHOOSE d \in OnDefects : Sig(d) = g : g \in { Sig(d) : d \in OnDefects } }
 InitCases  == TLCEval(IF Abstract THEN CasesOver(RepDefects, { "root" }) ELSE Cases)
 \* every defect has a representative with the same attributes (positions and slots are not looked at)
@@ -236,11 +249,12 @@ VARIABLES c,        \* the case (fixed along a behaviour)
           obs,      \* observable record, see ObsInit
           flight,   \* exception in flight (NoExc when none)
           reach,    \* how often the user raise point was reached
-          calls     \* observed entries so far (bounds the behaviour)
-vars == << c, pc, obs, flight, reach, calls >>
+          calls,    \* observed entries so far (bounds the behaviour)
+          refc      \* the forward-reference proxy's memo of its referent: "none" | "bad"
+vars == << c, pc, obs, flight, reach, calls, refc >>
 
 Init == /\ c \in InitCases
-        /\ pc = "idle" /\ obs = ObsInit /\ flight = NoExc /\ reach = 0 /\ calls = 0
+        /\ pc = "idle" /\ obs = ObsInit /\ flight = NoExc /\ reach = 0 /\ calls = 0 /\ refc = "none"
 
 Defective == c.defect # NoDefect
 Rep(S)   == IF Reps THEN { CHOOSE x \in S : TRUE } ELSE S
@@ -259,35 +273,35 @@ Layer(ph)  == CASE ph = "decor" -> DecorL
 
 Bump      == IF reach < 2 THEN reach + 1 ELSE reach      \* only "reached nth times yet?" matters
 Throw(e)  == flight' = e /\ pc' = "unwind"
-Stay      == UNCHANGED << c, reach, calls >>
+Stay      == UNCHANGED << c, refc, reach, calls >>
 
 (* ---- entries ---------------------------------------------------------------------- *)
 Decorate ==
   /\ pc = "idle" /\ calls = 0 /\ c.entry \in { "decorate", "call" }
   /\ obs' = ObsEnter(obs, "decor") /\ pc' = "memo" /\ calls' = 1
-  /\ UNCHANGED << c, flight, reach >>
+  /\ UNCHANGED << c, refc, flight, reach >>
 Call ==
   /\ pc = "decorated" /\ c.entry = "call" /\ calls < MaxCalls
   /\ obs' = ObsEnter(obs, "call") /\ pc' = "argcheck" /\ calls' = calls + 1
-  /\ UNCHANGED << c, flight, reach >>
+  /\ UNCHANGED << c, refc, flight, reach >>
 DoorCheck ==
   /\ \/ pc = "idle" /\ calls < MaxCalls /\ c.entry \in { "is_bearable", "die_if_unbearable" }
      \/ pc = "wrapped" /\ c.entry = "TypeHint" /\ calls < MaxCalls
   /\ obs' = ObsEnter(obs, "door") /\ pc' = "memo" /\ calls' = calls + 1
-  /\ UNCHANGED << c, flight, reach >>
+  /\ UNCHANGED << c, refc, flight, reach >>
 MakeTypeHint ==      \* TypeHint(hint), and later the wrapper's own methods (children are wrapped lazily)
   /\ c.entry = "TypeHint" /\ ((pc = "idle" /\ calls = 0) \/ (pc = "wrapped" /\ calls < MaxCalls))
   /\ obs' = ObsEnter(obs, "hint") /\ pc' = "wrap" /\ calls' = calls + 1
-  /\ UNCHANGED << c, flight, reach >>
+  /\ UNCHANGED << c, refc, flight, reach >>
 IsSubhint ==
   /\ pc = "idle" /\ calls < MaxCalls /\ c.entry = "is_subhint"
   /\ obs' = ObsEnter(obs, "hint") /\ pc' = "wrap" /\ calls' = calls + 1
-  /\ UNCHANGED << c, flight, reach >>
+  /\ UNCHANGED << c, refc, flight, reach >>
 
 (* ---- decoration-like stages (decorator and door functions share them) -------------- *)
 MemoProbe ==        \* hint_conf_exception_prefix_to_func_checker.get(CACHE_KEY); except TypeError
   /\ pc = "memo" /\ pc' = "sanify"
-  /\ UNCHANGED << c, obs, flight, reach, calls >>
+  /\ UNCHANGED << c, refc, obs, flight, reach, calls >>
 Sanify ==
   /\ pc = "sanify" /\ Stay /\ UNCHANGED obs
   /\ \/ pc' = "codegen" /\ UNCHANGED flight
@@ -295,7 +309,7 @@ Sanify ==
      \/ Defective /\ Unhashable(c.defect) /\ "unguarded_hash" \in Legacy /\ Throw(Exc("py:TypeError"))
      \/ Defective /\ "private_default" \in Legacy /\ Throw(Exc("_BeartypeUtilCallableException"))
 CodeGen ==
-  /\ pc = "codegen" /\ UNCHANGED << c, calls >>
+  /\ pc = "codegen" /\ UNCHANGED << c, refc, calls >>
   /\ \/ /\ pc' = IF obs.phase = "decor" THEN "return_ok" ELSE "argcheck"
         /\ UNCHANGED << flight, obs, reach >>
      \/ Defective /\ UNCHANGED << obs, reach >> /\ \E k \in Layer(obs.phase) : Throw(Exc(k))
@@ -312,11 +326,11 @@ CodeGen ==
            \/ \E k \in Layer(obs.phase) : Throw(Exc(k))                  \* raise exception_cls(...) from it
 
 Warn ==             \* warnings recorded during code generation are played back (checkmake)
-  /\ pc \in { "codegen", "wrap" } /\ obs.nwarn < 3 /\ UNCHANGED << c, pc, flight, reach, calls >>
+  /\ pc \in { "codegen", "wrap" } /\ obs.nwarn < 3 /\ UNCHANGED << c, refc, pc, flight, reach, calls >>
   /\ \E w \in WarnL : obs' = ObsWarn(obs, w)
 
 Unwind ==           \* except Exception as exception: reraise_exception_placeholder(exception, ...)
-  /\ pc = "unwind" /\ pc' = "escape" /\ UNCHANGED << c, obs, reach, calls >>
+  /\ pc = "unwind" /\ pc' = "escape" /\ UNCHANGED << c, refc, obs, reach, calls >>
   /\ flight' = IF "reraise_copies" \in Legacy /\ flight.kind = "user"
                THEN Exc(flight.cls)       \* a new object of the same class with the edited message
                ELSE flight                \* raise exception.with_traceback(exception.__traceback__)
@@ -324,28 +338,34 @@ Unwind ==           \* except Exception as exception: reraise_exception_placehol
 (* ---- the generated wrapper / checker: no handler between user code and the caller --- *)
 Quiet ==            \* the user's hook is reached but does not raise yet (it raises from the nth reach on)
   /\ obs.phase # "idle" /\ c.rp \in CheckRPs /\ reach + 1 < c.nth
-  /\ reach' = Bump /\ UNCHANGED << c, pc, obs, flight, calls >>
+  /\ reach' = Bump /\ UNCHANGED << c, refc, pc, obs, flight, calls >>
 UserPoint ==
   /\ c.rp \in CheckRPs /\ reach + 1 >= c.nth /\ reach' = Bump
   /\ obs' = ObsUserRaise(obs, 1, TRUE) /\ flight' = UserExc(1, TRUE) /\ pc' = "escape"
 ArgCheck ==
-  /\ pc = "argcheck" /\ UNCHANGED << c, calls >>
+  /\ pc = "argcheck" /\ UNCHANGED << c, refc, calls >>
   /\ \/ UserPoint
      \/ pc' = "argcheck2" /\ UNCHANGED << obs, flight, reach >>
 ArgCheck2 ==
   /\ pc = "argcheck2" /\ UNCHANGED << c, calls, obs, reach >>
-  /\ \/ pc' = (IF obs.phase = "call" THEN "body" ELSE "return_ok") /\ UNCHANGED flight       \* satisfied
-     \/ pc' = "report" /\ UNCHANGED flight                                                     \* violated
-     \/ /\ Defective /\ Lazy(c.defect) /\ pc' = "escape"                                       \* forward reference
+  /\ \/ /\ pc' = (IF obs.phase = "call" THEN "body" ELSE "return_ok")                         \* satisfied
+        /\ UNCHANGED << flight, refc >>
+     \/ pc' = "report" /\ UNCHANGED << flight, refc >>                                         \* violated
+     \/ \* a forward reference is resolved now (fwdrefmeta.__resolved_type_beartype__): the referent is
+        \* looked up, VALIDATED, and only then memoised in the proxy; an unusable referent is reported
+        /\ Defective /\ Lazy(c.defect) /\ refc = "none" /\ pc' = "escape"
         /\ \E k \in (IF "decor_class_at_call" \in Legacy THEN FwdDecorL
                       ELSE IF obs.phase = "call" THEN FwdCallL ELSE FwdCallL \cup FwdDecorL) : flight' = Exc(k)
+        /\ refc' = IF "cache_unvalidated_referent" \in Legacy /\ BadReferent(c.defect) THEN "bad" ELSE "none"
+     \/ \* the memoised referent is returned early and handed to isinstance() / issubclass() as it is
+        /\ refc = "bad" /\ pc' = "escape" /\ flight' = Exc("py:TypeError") /\ UNCHANGED refc
 Body ==
-  /\ pc = "body" /\ UNCHANGED << c, calls >>
+  /\ pc = "body" /\ UNCHANGED << c, refc, calls >>
   /\ \/ /\ c.rp = "callable" /\ reach' = Bump /\ obs' = ObsUserRaise(obs, 1, TRUE)
         /\ flight' = UserExc(1, TRUE) /\ pc' = "escape"
      \/ c.rp # "callable" /\ pc' = "return_ok" /\ UNCHANGED << obs, flight, reach >>
 Report ==           \* get_func_pith_violation / get_hint_object_violation re-walk hint and object
-  /\ pc = "report" /\ UNCHANGED << c, calls >>
+  /\ pc = "report" /\ UNCHANGED << c, refc, calls >>
   /\ \/ /\ c.rp \in CheckRPs /\ reach' = Bump /\ obs' = ObsUserRaise(obs, 1, TRUE) /\ pc' = "escape"
         /\ flight' = IF "report_wraps_user" \in Legacy THEN Exc("_BeartypeCallHintPepRaiseException")
                      ELSE UserExc(1, TRUE)
@@ -358,7 +378,7 @@ Report ==           \* get_func_pith_violation / get_hint_object_violation re-wa
 
 (* ---- beartype.door.TypeHint and is_subhint ------------------------------------------ *)
 Wrap ==             \* TypeHint.__new__ (doormeta): die_unless_hint(exception_cls = Door...), wrapper cache
-  /\ pc = "wrap" /\ UNCHANGED << c, calls >>
+  /\ pc = "wrap" /\ UNCHANGED << c, refc, calls >>
   /\ \/ /\ pc' = (IF c.entry = "is_subhint" THEN "compare" ELSE "return_ok")
         /\ UNCHANGED << flight, obs, reach >>
      \/ Defective /\ pc' = "escape" /\ UNCHANGED << obs, reach >> /\ \E k \in Layer("hint") : flight' = Exc(k)
@@ -372,7 +392,7 @@ Wrap ==             \* TypeHint.__new__ (doormeta): die_unless_hint(exception_cl
         /\ \/ flight' = UserExc(1, TRUE)
            \/ \E k \in Layer("hint") : flight' = Exc(k)
 Compare ==          \* TypeHint.is_subhint -> issubclass() on the wrapped classes: user hook, no handler
-  /\ pc = "compare" /\ UNCHANGED << c, calls >>
+  /\ pc = "compare" /\ UNCHANGED << c, refc, calls >>
   /\ \/ pc' = "return_ok" /\ UNCHANGED << obs, flight, reach >>
      \/ /\ c.rp \in { "subclasscheck", "eq" } /\ reach + 1 >= c.nth     \* (Literal members are compared with ==)
         /\ reach' = Bump /\ obs' = ObsUserRaise(obs, 1, FALSE)
@@ -387,11 +407,11 @@ After == CASE obs.phase = "decor" -> "decorated"
           [] OTHER -> "idle"
 ReturnOk ==
   /\ pc = "return_ok" /\ obs' = ObsReturn(obs, OkOut) /\ pc' = After
-  /\ UNCHANGED << c, flight, reach, calls >>
+  /\ UNCHANGED << c, refc, flight, reach, calls >>
 Escape ==
   /\ pc = "escape" /\ obs' = ObsReturn(obs, flight) /\ flight' = NoExc
   /\ pc' = (IF obs.phase = "decor" THEN "done" ELSE After)
-  /\ UNCHANGED << c, reach, calls >>
+  /\ UNCHANGED << c, refc, reach, calls >>
 
 Next == \/ Decorate \/ Call \/ DoorCheck \/ MakeTypeHint \/ IsSubhint
         \/ MemoProbe \/ Sanify \/ CodeGen \/ Warn \/ Unwind
@@ -411,12 +431,12 @@ UserPassesThrough    == /\ "user_exception_replaced" \notin obs.verdict
 OnlyBeartypeWarnings == "foreign_warning" \notin obs.verdict
 \* the verdict is always the declarative judgement of the last outcome (shape sanity)
 TypeOK == /\ obs.out.kind \in { "none", "ok", "exc", "user" } /\ reach \in 0..2 /\ calls \in 0..MaxCalls
-          /\ flight.kind \in { "none", "exc", "user" }
+          /\ flight.kind \in { "none", "exc", "user" } /\ refc \in { "none", "bad" }
 \* a user exception in flight is never dropped on the floor by the pipeline
 NothingSwallowed == (pc \in { "unwind", "escape" }) => flight # NoExc
 
 (* the case table *)
 RowText(k) == "case|" \o k.entry \o "|" \o k.defect[1] \o "|" \o k.defect[2] \o "|" \o k.pos \o "|"
-              \o k.rp \o "|" \o ToString(k.nth) \o "|" \o k.slot
+              \o k.rp \o "|" \o ToString(k.nth) \o "|" \o k.slot \o "|" \o ToString(k.rept)
 ASSUME EmitTable == Emit => \A k \in Cases : PrintT(RowText(k))
 =============================================================================
